@@ -142,7 +142,12 @@ class Exec(SpecMixin, ExprMixin, CallMixin, BuiltinMixin, StmtMixin):
   def global_value(self, g):
     ty = getattr(self.world, 'global_objects', {}).get(g.path)
     if ty is not None:
-      return VRef(global_const(g.path), parse_type(ty))
+      t = global_const(g.path)
+      if g.path not in self.pure_axiomatised and self.entry_cx is not None:
+        self.pure_axiomatised.add(g.path)
+        self.axioms.append(self.entry_cx.heap.alloc(t))     # module-level objects exist at entry
+        self.axioms.append(t != NONE)
+      return VRef(t, parse_type(ty))
     return g
 
   def read_attr(self, base, attr, st, spec=False):
